@@ -60,8 +60,15 @@ def run(prop, tier, mod):
                 else:
                     print("SEED-NOT-COVERED property=%s %s: recorded as outside what the rules of this property decide (see seeded/%s/meta.json)" % (prop, r["seed"], r["seed"]))
         print("%s thorough: %d seeded breaking changes re-applied to scratch copies of the current tree: %d detected, %d missed, %d skipped" % (prop, len(res), n_det, n_miss, len(res) - n_det - n_miss))
-        extra = {"seeded_changes": res, "seeded_detected": n_det, "seeded_missed": n_miss,
-                 "thorough_explanation": "quick analysis plus self-validation: every recorded independently written breaking change of this property (seeded/) is re-applied to a scratch copy of /repo's current working tree, facts are re-extracted and the same rules must report it"}
+        rres = seeds.run_refactors(prop, mod, factory)
+        n_sil = sum(1 for r in rres if r["status"] == "silent")
+        for r in rres:
+            if r["status"] == "alarm":
+                print("REFACTOR-ALARM property=%s %s: a behaviour-preserving restructuring is reported (false alarm of the rules, not a verdict on /repo): %s" % (prop, r["probe"], r["keys"][:2]))
+        if rres:
+            print("%s thorough: %d behaviour-preserving refactorings re-applied to scratch copies: %d silent, %d reported, %d skipped" % (prop, len(rres), n_sil, sum(1 for r in rres if r["status"] == "alarm"), sum(1 for r in rres if r["status"] == "skipped")))
+        extra = {"refactor_probes": rres, "refactor_probes_silent": n_sil, "seeded_changes": res, "seeded_detected": n_det, "seeded_missed": n_miss,
+                 "thorough_explanation": "quick analysis plus self-validation in both directions: every recorded independently written breaking change of this property (seeded/) is re-applied to a scratch copy of /repo's current working tree, facts are re-extracted and the same rules must report it; every recorded behaviour-preserving refactoring of the anchored code (refactors/) is re-applied likewise and the rules must stay silent"}
     return rep.finish(explanation, extra_cov=extra, src_hash=h, extract_s=dt)
 
 
